@@ -350,12 +350,33 @@ def vary_prop(p, key, item, vary):
     return wrong, (num, true)
 
 
+class Cmds(list):
+    """script lines; .canonical = the same commands in the plain order (properties first)"""
+    canonical = None
+
+
+# property lists whose tail may be defined after use (names given to entities before the property exists)
+LATE_KEYS = ("pointprops", "bdryprops", "blockprops", "circuits")
+
+
 def build_commands(p, sp, tag, newdoc_form=0, vary=None):
     """Lua lines that build problem p from scratch; `expect` = {tag: values the select commands must return}.
     vary: random source for the detours through xi_modify*, xi_delete* and xi_setgroup (None: the plain script)."""
     kind = p["kind"]
     pi, po = PRE[kind]
-    L, expect = [], {}
+    L, expect = Cmds(), {}
+    # "define after use": with vary, the tail of a property list may be defined only after the entities were given
+    # those property names (names are resolved when the property appears).  L.canonical keeps the plain order
+    # (what the model's script_of renders); the late lines are run after the assignments.
+    L.canonical = []
+    late_lines = []
+
+    class Both(object):
+        """appends go to the script and to the canonical order"""
+        def append(self, line, late=False):
+            L.canonical.append(line)
+            (late_lines if late else L).append(line)
+    LL = Both()
 
     def call(base, *args):
         return "%s(%s)" % (sp(base), ", ".join(args))
@@ -363,19 +384,19 @@ def build_commands(p, sp, tag, newdoc_form=0, vary=None):
              "%s_newdocument()" % pi, "%s_new_document()" % pi]
     f = forms[newdoc_form % len(forms)]
     sp.count[f.split("(")[0]] = sp.count.get(f.split("(")[0], 0) + 1
-    L.append(f)
+    LL.append(f)
     units = lstr(LUA_UNIT[p.get("units", "millimeters")])
     typ = lstr("axi" if p.get("problemtype") == "axisymmetric" else "planar")
     if kind == "fem":
-        L.append(call(pi + "_probdef", lnum(p.get("frequency", 0)), units, typ, lnum(p.get("precision", 1e-8)), lnum(p.get("depth", 1)),
+        LL.append(call(pi + "_probdef", lnum(p.get("frequency", 0)), units, typ, lnum(p.get("precision", 1e-8)), lnum(p.get("depth", 1)),
                       lnum(p.get("minangle", 30)), "0"))
     elif kind == "fee":
-        L.append(call(pi + "_probdef", units, typ, lnum(p.get("precision", 1e-8)), lnum(p.get("depth", 1)), lnum(p.get("minangle", 30))))
+        LL.append(call(pi + "_probdef", units, typ, lnum(p.get("precision", 1e-8)), lnum(p.get("depth", 1)), lnum(p.get("minangle", 30))))
     else:
-        L.append(call(pi + "_probdef", units, typ, lnum(p.get("precision", 1e-8)), lnum(p.get("depth", 1)), lnum(p.get("minangle", 30)),
+        LL.append(call(pi + "_probdef", units, typ, lnum(p.get("precision", 1e-8)), lnum(p.get("depth", 1)), lnum(p.get("minangle", 30)),
                       lstr(p.get("prevsoln", "")), lnum(p.get("dt", 0))))
     if p.get("problemtype") == "axisymmetric" and "extRo" in p:
-        L.append(call(pi + "_defineouterspace", lnum(p["extZo"]), lnum(p["extRo"]), lnum(p["extRi"])))
+        LL.append(call(pi + "_defineouterspace", lnum(p["extZo"]), lnum(p["extRo"]), lnum(p["extRi"])))
     # properties, in file order: point, boundary, block, circuit/conductor
     pi_mod = {"circuits": "modifycircprop" if kind == "fem" else "modifyconductorprop"}
     pi_del = {"circuits": "deletecircuit" if kind == "fem" else "deleteconductor"}
@@ -410,109 +431,115 @@ def build_commands(p, sp, tag, newdoc_form=0, vary=None):
 
     for key in ("pointprops", "bdryprops", "blockprops", "circuits"):
         items = p.get(key, [])
+        late_from = len(items)
+        if vary is not None and items and key in LATE_KEYS and vary.random() < 0.4:
+            late_from = vary.randrange(len(items))           # items[late_from:] are defined after the assignments
+            sp.count["(define-after-use:%s)" % key] = sp.count.get("(define-after-use:%s)" % key, 0) + 1
         junk_at = None
         if vary is not None and vary.random() < 0.35:
             junk_at = vary.randrange(len(items) + 1)         # a property that is deleted again (shifts the indices meanwhile)
         for i, it in enumerate(items):
             if junk_at == i:
-                L.append(add_line(key, dict(it, name=JUNK)))
+                LL.append(add_line(key, dict(it, name=JUNK)))
             it2, mod = vary_prop(p, key, it, vary)
-            L.append(add_line(key, it2))
+            lt = i >= late_from
+            LL.append(add_line(key, it2), lt)
             if mod:
-                L.append(call(pi + "_" + MODIFY_CMD.get(key, pi_mod.get(key)), lstr(it["name"]), "%d" % mod[0], lnum(mod[1])))
+                LL.append(call(pi + "_" + MODIFY_CMD.get(key, pi_mod.get(key)), lstr(it["name"]), "%d" % mod[0], lnum(mod[1])), lt)
             if key == "bdryprops" and kind == "fem" and "innerangle" in it:
-                L.append(call(pi + "_modifyboundprop", lstr(it["name"]), "10", lnum(it["innerangle"])))
-                L.append(call(pi + "_modifyboundprop", lstr(it["name"]), "11", lnum(it["outerangle"])))
+                LL.append(call(pi + "_modifyboundprop", lstr(it["name"]), "10", lnum(it["innerangle"])), lt)
+                LL.append(call(pi + "_modifyboundprop", lstr(it["name"]), "11", lnum(it["outerangle"])), lt)
             if key == "blockprops" and kind == "fem":
                 for (bb, hh) in it.get("bh", []):
-                    L.append(call(pi + "_addbhpoint", lstr(it["name"]), lnum(bb), lnum(hh)))
+                    LL.append(call(pi + "_addbhpoint", lstr(it["name"]), lnum(bb), lnum(hh)), lt)
             if key == "blockprops" and kind == "feh":
                 for (t, k) in it.get("tk", []):
-                    L.append(call(pi + "_addtkpoint", lstr(it["name"]), lnum(t), lnum(k)))
+                    LL.append(call(pi + "_addtkpoint", lstr(it["name"]), lnum(t), lnum(k)), lt)
         if junk_at is not None:
             if junk_at == len(items):
-                L.append(add_line(key, dict(items[-1], name=JUNK) if items else dict(name=JUNK)))
-            L.append(call(pi + "_" + DELETE_CMD.get(key, pi_del.get(key)), lstr(JUNK)))
+                LL.append(add_line(key, dict(items[-1], name=JUNK) if items else dict(name=JUNK)))
+            LL.append(call(pi + "_" + DELETE_CMD.get(key, pi_del.get(key)), lstr(JUNK)))
     # geometry
     pts = p.get("points", [])
     for q in pts:
-        L.append(call(pi + "_addnode", lnum(q["x"]), lnum(q["y"])))
+        LL.append(call(pi + "_addnode", lnum(q["x"]), lnum(q["y"])))
     for s in p.get("segments", []):
         a, b = pts[s["n0"]], pts[s["n1"]]
-        L.append(call(pi + "_addsegment", lnum(a["x"]), lnum(a["y"]), lnum(b["x"]), lnum(b["y"])))
+        LL.append(call(pi + "_addsegment", lnum(a["x"]), lnum(a["y"]), lnum(b["x"]), lnum(b["y"])))
     for a in p.get("arcs", []):
         q0, q1 = pts[a["n0"]], pts[a["n1"]]
-        L.append(call(pi + "_addarc", lnum(q0["x"]), lnum(q0["y"]), lnum(q1["x"]), lnum(q1["y"]), lnum(a["angle"]), lnum(a.get("maxseg", 10))))
+        LL.append(call(pi + "_addarc", lnum(q0["x"]), lnum(q0["y"]), lnum(q1["x"]), lnum(q1["y"]), lnum(a["angle"]), lnum(a.get("maxseg", 10))))
     for h in p.get("holes", []):
-        L.append(call(pi + "_addblocklabel", lnum(h["x"]), lnum(h["y"])))
+        LL.append(call(pi + "_addblocklabel", lnum(h["x"]), lnum(h["y"])))
     for l in p.get("labels", []):
-        L.append(call(pi + "_addblocklabel", lnum(l["x"]), lnum(l["y"])))
+        LL.append(call(pi + "_addblocklabel", lnum(l["x"]), lnum(l["y"])))
     # assignments: select + set*prop + clearselected for every entity; the select commands return the
     # coordinates of what they selected (checked against the intended entity)
     circ = p.get("circuits", [])
     for i, q in enumerate(pts):
         t = "%s_sn%d" % (tag, i)
-        L.append('out("%s", %s)' % (t, call(pi + "_selectnode", lnum(q["x"]), lnum(q["y"]))))
+        LL.append('out("%s", %s)' % (t, call(pi + "_selectnode", lnum(q["x"]), lnum(q["y"]))))
         expect[t] = [q["x"], q["y"]]
         args = [lstr(name_of(p.get("pointprops", []), q.get("prop", 0))), "%d" % q.get("group", 0)]
         if kind != "fem":
             args.append(lstr(name_of(circ, q.get("cond", 0))))
-        L.append(call(pi + "_setnodeprop", *args))
-        L.append(call(pi + "_clearselected"))
+        LL.append(call(pi + "_setnodeprop", *args))
+        LL.append(call(pi + "_clearselected"))
     for i, s in enumerate(p.get("segments", [])):
         a, b = pts[s["n0"]], pts[s["n1"]]
         t = "%s_ss%d" % (tag, i)
-        L.append('out("%s", %s)' % (t, call(pi + "_selectsegment", lnum((a["x"] + b["x"]) / 2), lnum((a["y"] + b["y"]) / 2))))
+        LL.append('out("%s", %s)' % (t, call(pi + "_selectsegment", lnum((a["x"] + b["x"]) / 2), lnum((a["y"] + b["y"]) / 2))))
         expect[t] = [a["x"], a["y"], b["x"], b["y"]]
         ms = s.get("maxside", -1)
         args = [lstr(name_of(p.get("bdryprops", []), s.get("bdry", 0))), lnum(ms if ms > 0 else 0), "1" if ms <= 0 else "0",
                 "%d" % s.get("hidden", 0), "%d" % s.get("group", 0)]
         if kind != "fem":
             args.append(lstr(name_of(circ, s.get("cond", 0))))
-        L.append(call(pi + "_setsegmentprop", *args))
-        L.append(call(pi + "_clearselected"))
+        LL.append(call(pi + "_setsegmentprop", *args))
+        LL.append(call(pi + "_clearselected"))
     for i, a in enumerate(p.get("arcs", [])):
         if kind == "feh" and arc_plain(a) and not sp.registered("hi_setarcsegmentprop"):
             continue             # finding C17-1: nothing to set, and the command does not exist
         q0, q1 = pts[a["n0"]], pts[a["n1"]]
         mx, my = arc_mid(p, a)
         t = "%s_sa%d" % (tag, i)
-        L.append('out("%s", %s)' % (t, call(pi + "_selectarcsegment", lnum(mx), lnum(my))))
+        LL.append('out("%s", %s)' % (t, call(pi + "_selectarcsegment", lnum(mx), lnum(my))))
         expect[t] = [q0["x"], q0["y"], q1["x"], q1["y"]]
         args = [lnum(a.get("maxseg", 10)), lstr(name_of(p.get("bdryprops", []), a.get("bdry", 0))), "%d" % a.get("hidden", 0), "%d" % a.get("group", 0)]
         if kind != "fem":
             args.append(lstr(name_of(circ, a.get("cond", 0))))
-        L.append(call(pi + "_setarcsegmentprop", *args))
-        L.append(call(pi + "_clearselected"))
+        LL.append(call(pi + "_setarcsegmentprop", *args))
+        LL.append(call(pi + "_clearselected"))
     for i, h in enumerate(p.get("holes", [])):
         t = "%s_sh%d" % (tag, i)
-        L.append('out("%s", %s)' % (t, call(pi + "_selectlabel", lnum(h["x"]), lnum(h["y"]))))
+        LL.append('out("%s", %s)' % (t, call(pi + "_selectlabel", lnum(h["x"]), lnum(h["y"]))))
         expect[t] = [h["x"], h["y"]]
         if kind == "fem":
-            L.append(call(pi + "_setblockprop", lstr("<No Mesh>"), "1", "0", lstr("<None>"), "0", "%d" % h.get("group", 0), "1"))
+            LL.append(call(pi + "_setblockprop", lstr("<No Mesh>"), "1", "0", lstr("<None>"), "0", "%d" % h.get("group", 0), "1"))
         else:
-            L.append(call(pi + "_setblockprop", lstr("<No Mesh>"), "1", "0", "%d" % h.get("group", 0)))
-        L.append(call(pi + "_clearselected"))
+            LL.append(call(pi + "_setblockprop", lstr("<No Mesh>"), "1", "0", "%d" % h.get("group", 0)))
+        LL.append(call(pi + "_clearselected"))
     for i, l in enumerate(p.get("labels", [])):
         t = "%s_sl%d" % (tag, i)
-        L.append('out("%s", %s)' % (t, call(pi + "_selectlabel", lnum(l["x"]), lnum(l["y"]))))
+        LL.append('out("%s", %s)' % (t, call(pi + "_selectlabel", lnum(l["x"]), lnum(l["y"]))))
         expect[t] = [l["x"], l["y"]]
         dd = l.get("maxarea", -1)
         blk = lstr(name_of(p.get("blockprops", []), l.get("block", 1), "<No Mesh>"))
         if kind == "fem":
-            L.append(call(pi + "_setblockprop", blk, "1" if dd <= 0 else "0", lnum(dd if dd > 0 else 0), lstr(name_of(circ, l.get("circuit", 0))),
+            LL.append(call(pi + "_setblockprop", blk, "1" if dd <= 0 else "0", lnum(dd if dd > 0 else 0), lstr(name_of(circ, l.get("circuit", 0))),
                           lnum(l.get("magdir", 0)), "%d" % l.get("group", 0), "%d" % l.get("turns", 1)))
         else:
-            L.append(call(pi + "_setblockprop", blk, "1" if dd <= 0 else "0", lnum(dd if dd > 0 else 0), "%d" % l.get("group", 0)))
+            LL.append(call(pi + "_setblockprop", blk, "1" if dd <= 0 else "0", lnum(dd if dd > 0 else 0), "%d" % l.get("group", 0)))
         ext = l.get("external", 0)
         if ext & 1:
-            L.append(call(pi + "_attachouterspace"))
+            LL.append(call(pi + "_attachouterspace"))
         if ext & 2:
-            L.append(call(pi + "_attachdefault"))
-        L.append(call(pi + "_clearselected"))
+            LL.append(call(pi + "_attachdefault"))
+        LL.append(call(pi + "_clearselected"))
+    L.extend(late_lines)
     if vary is not None:
         # xi_setgroup(n): "set the group of the selected items to n" (and unselects them): away and back again
-        L.append(POSTLUDE)
+        LL.append(POSTLUDE)
         picks = []
         if pts:
             picks.append(("_selectnode", pts[vary.randrange(len(pts))], None))
@@ -524,8 +551,8 @@ def build_commands(p, sp, tag, newdoc_form=0, vary=None):
             picks.append(("_selectlabel", p["labels"][vary.randrange(len(p["labels"]))], None))
         for cmd, ent, _ in picks:
             for g in (97, ent.get("group", 0)):
-                L.append(call(pi + cmd, lnum(ent["x"]), lnum(ent["y"])))
-                L.append(call(pi + "_setgroup", "%d" % g))
+                LL.append(call(pi + cmd, lnum(ent["x"]), lnum(ent["y"])))
+                LL.append(call(pi + "_setgroup", "%d" % g))
     return L, expect
 
 
